@@ -20,7 +20,8 @@ type meshStat struct {
 	Cells     int    `json:"cells"`
 	Nt        int    `json:"nt"`        // triangles / segments
 	Unmatched int    `json:"unmatched"` // 3D: directed edges whose reverse occurs a different number of times; 2D: end points of odd degree
-	Degen     int    `json:"degen"`     // triangles with two identical vertices / zero-length segments
+	Degen     int    `json:"degen"`     // triangles with two identical vertices / zero-length segments (exactly equal coordinates, the code's own notion)
+	NearDegen int    `json:"neardegen"` // items whose vertices are distinct floats but closer than 1e-6 cell (slivers next to a lattice point; not judged)
 	VolPos    bool   `json:"volpos"`    // signed volume (3D) is positive
 	Outside   int    `json:"outside"`
 	MaxF      int64  `json:"maxf"`     // 2D: max |f(endpoint)| / h * 1e6 ; 3D: 0
@@ -55,8 +56,10 @@ func stat3(name, param string, s sdf.SDF3, which string, cells int) meshStat {
 				o.Outside++
 			}
 		}
-		if id[0] == id[1] || id[1] == id[2] || id[2] == id[0] {
+		if t[0] == t[1] || t[1] == t[2] || t[2] == t[0] {
 			o.Degen++
+		} else if id[0] == id[1] || id[1] == id[2] || id[2] == id[0] {
+			o.NearDegen++
 		}
 		for j := 0; j < 3; j++ {
 			cnt[de{id[j], id[(j+1)%3]}]++
@@ -106,8 +109,10 @@ func stat2(name, param string, s sdf.SDF2, which string, cells int, radius, peri
 				o.Outside++
 			}
 		}
-		if id[0] == id[1] {
+		if l[0] == l[1] {
 			o.Degen++
+		} else if id[0] == id[1] {
+			o.NearDegen++
 		}
 		length += l[1].Sub(l[0]).Length()
 	}
